@@ -14,7 +14,7 @@ TRACE_DEQUE = True
 MANIFEST = {
     "category": "model_checking",
     "text": "TLC model-checks the TLA+ state machine LogThread.tla (senders with three-step sends, FIFO channel, collector thread, "
-            "owner with collect/drop) over ALL interleavings of 2 senders x 3 messages (quick) and 3 senders x 2 messages (thorough) on 2 addresses: "
+            "owner with collect/drop) over ALL interleavings of 2 senders x 3 messages and 3 senders x 2 messages on 2 addresses (thorough tier; quick tier: 2 senders, 3 + 2 messages): "
             "the three clauses of the property, the refinement to the folded machine LogThreadAbs.tla and termination of the collector; "
             "executions of the real LogThread (2-4 OS threads with seeded yields, events ordered by one process-wide atomic tick taken before/after "
             "each call) are accepted iff TLC finds SOME placement of the unlogged enqueue steps that explains the returned vectors; "
@@ -167,13 +167,13 @@ def check(seed, tier):
 
     # (M) the specification itself, all interleavings - runs in the background while (T) proceeds
     def model_check():
-        if quick:   # every action must be covered (small instance), then 2 x 3 without the coverage overhead
+        if quick:   # every action must be covered (small instance), then 2 senders with 3 + 2 messages without the coverage overhead
             core.mc(rep, "mc/MC_LogThread.tla", "MC_LogThread_cov.cfg", workers=2, coverage=True, label="MC_LogThread_cov", timeout=3000)
-            core.mc(rep, "mc/MC_LogThread.tla", "MC_LogThread_2x3.cfg", workers=4, label="MC_LogThread_2x3", timeout=3000)
+            core.mc(rep, "mc/MC_LogThread.tla", "MC_LogThread_32.cfg", workers=4, label="MC_LogThread_32", timeout=3000)
             core.mc(rep, "mc/MC_LogThreadLive.tla", "MC_LogThreadLive_21.cfg", workers=2, label="MC_LogThreadLive_21", timeout=3000)
         else:
             core.mc(rep, "mc/MC_LogThread.tla", "MC_LogThread_2x3.cfg", workers=4, coverage=True, label="MC_LogThread_2x3", timeout=6000)
-            core.mc(rep, "mc/MC_LogThread.tla", "MC_LogThread_3x2.cfg", workers=6, label="MC_LogThread_3x2", timeout=6000)
+            core.mc(rep, "mc/MC_LogThread.tla", "MC_LogThread_3x2.cfg", workers=4, label="MC_LogThread_3x2", timeout=6000)
             core.mc(rep, "mc/MC_LogThreadLive.tla", "MC_LogThreadLive_2x3.cfg", workers=4, label="MC_LogThreadLive_2x3", timeout=6000)
     pool = cf.ThreadPoolExecutor(max_workers=1)
     mc_job = pool.submit(model_check)
@@ -209,8 +209,9 @@ def check(seed, tier):
         "tlc_schedules": nsched, "schedule_histories": meta_s["cases"],
         "exhaustive": False,
         "mc_runs": rep.cov.get("mc_runs"), "trusted_base": TRUSTED,
-    }, ["model checking is exhaustive for the stated instances only (2 senders x 3 messages%s, 2 addresses); liveness under weak fairness of the collector "
-        "and the owner, on %s" % (("", "2 senders with 2 + 1 messages") if quick else (" and 3 senders x 2 messages", "2 senders x 3 messages")),
+    }, ["model checking is exhaustive for the stated instances only (%s, 2 addresses); liveness under weak fairness of the collector "
+        "and the owner, on %s" % (("2 senders with 3 + 2 messages; the thorough tier does 2 x 3 and 3 x 2", "2 senders with 2 + 1 messages") if quick
+                                  else ("2 senders x 3 messages and 3 senders x 2 messages", "2 senders x 3 messages")),
         "the enqueue of a send is an internal step between the ticks taken before and after Sender::send (crossbeam's unbounded channel is linearisable); "
         "ticks come from one AtomicU64 with SeqCst, so tick order is consistent with real time; no wall-clock ordering is used",
         "the order among returned warnings / among returned addressed logs is not part of the property and is not checked (the code returns key order; "
